@@ -36,6 +36,12 @@ def run(ctx: Ctx):
     percentages(ctx)
     containment(ctx)
     divisions(ctx)
+    from .common import index_space_lints
+
+    index_space_lints(ctx, "index-space", ['matrix/subtotals.py', 'stripe/insertion.py', 'matrix/measure.py', 'stripe/measure.py'], words=('wavediff', 'proportion'))
+    from .common import no_shared_writes
+
+    no_shared_writes(ctx, "no-shared-write")
 
 
 def table_proportions(ctx: Ctx):
